@@ -225,6 +225,35 @@ func c19LockForms(c *runCtx, gb, tmpl string, id entity.Id) {
 		}
 		os.RemoveAll(dir)
 	}
+	// what the reader makes of a lock file's content, against the model (GitBugModel.LockFile.readLock
+	// with the limits found in the source): numbers no process has, too long, not a number
+	var lf struct {
+		Limit  int `json:"lock_read_limit"`
+		Refuse int `json:"lock_refuse_len"`
+	}
+	if b, err := os.ReadFile(filepath.Join(os.Getenv("VERIF_BUILD"), "facts.json")); err == nil {
+		json.Unmarshal(b, &lf)
+	}
+	for _, content := range []string{"4194303", "9999999", "99999999", "999999999", "1234567890", "12345678901234", "abc", "", "12 ", "0x1f", "७", "+41943"} {
+		dir := copyDir(tmpl)
+		os.WriteFile(lockPath(dir), []byte(content), 0o644)
+		out, err := runGB(gb, dir, "bug")
+		res := "ok"
+		switch {
+		case err == nil:
+		case strings.Contains(out, "the lock file should be"):
+			res = "tooLong"
+		case strings.Contains(out, "already locked by the process"):
+			res = "ok" // parsed; the number happens to be a live process
+		case strings.Contains(out, "invalid syntax") || strings.Contains(out, "Atoi") || strings.Contains(out, "ParseInt"):
+			res = "notANumber"
+		default:
+			res = "other:" + trunc(out, 120)
+		}
+		c.emit(map[string]any{"cmd": "readlock", "limit": lf.Limit, "refuse": lf.Refuse, "content": content}, map[string]any{"res": res})
+		c.count("lock-content/" + res)
+		os.RemoveAll(dir)
+	}
 	// a live process that is not a git-bug of ours: pid 1
 	{
 		dir := copyDir(tmpl)
